@@ -324,7 +324,8 @@ PROPS['C05'] = {
     'functions': ['(*tree.Tree).UnRoot', '(*tree.Tree).ReorderEdges', '(*tree.Tree).reroot_nocheck', '(*tree.Tree).Reroot', '(*tree.Node).RotateNeighbors',
                   ('(*tree.Tree).LeastCommonAncestorRecur', {'match': [r'^step', r'^return', r'^post', r'^inv']}),
                   ('(*tree.Tree).RerootOutGroup', {'match': [r'^callsite']}),
-                  ('(*tree.Tree).RerootMidPoint', {'match': [r'^callsite', r'^inv', r'^step', r'^bounds\[(0|1|2|3|4|6|7|8|9|10|11)\]'] })],
+                  ('(*tree.Tree).RerootMidPoint', {'match': [r'^callsite', r'^inv', r'^step', r'^bounds\[(0|1|2|3|4|6|7|8|9|10|11)\]'] }),
+                  'tree.MaxLengthPath', ('(*tree.Tree).LeastCommonAncestorUnrooted', {'match': [r'^callsite', r'^inv']})],
     'trusted_base': TB_COMMON,
     'assumptions': A_COMMON,
     'not_decided': ['tip set / split set / path lengths invariance as whole-tree consequences (L7, L2, L3: A-GRAPH)', 'outgroup is exactly one root clade (needs the LCA monophyly stretch contract)', 'root halfway along a longest path (needs MaxLengthPath maximality)'],
